@@ -3,7 +3,7 @@ VerifyVersion of the composite guard).  DESIGN.md section 3."""
 from facts import AnalysisBroken
 from pathsim import S, C, show, symbols, is_const
 from absword import W, feasible_envs
-from locks import WordLockRules, RowEval, word_symbols, short, loc_of, subst, is_write
+from locks import WordLockRules, RowEval, word_symbols, short, loc_of, subst, is_write, has_acquire
 
 
 class OptimisticRules(WordLockRules):
@@ -101,6 +101,14 @@ class OptimisticRules(WordLockRules):
             self.sink.bad(rule, key, loc, bad)
         else:
             self.sink.ok(rule, key, loc_of(prod), 'version = low 32 bits of the word read at %s; path condition => X clear on all %d cells' % (prod['line'], n))
+        # the reads that follow use this version as their starting point: the read that sampled it must synchronise with the
+        # release that published it (acquire on the read, or an acquire fence after it)
+        o = prod['orders'][1] if (prod['op'] == 'cas' and not prod.get('success') and len(prod['orders']) > 1) else prod['orders'][0]
+        good = has_acquire(o) or any(x['kind'] == 'fence' and has_acquire(x['order']) for x in p.events[prod['seq'] + 1:])
+        self.sink.emit('C03.ORDER', 'ok' if good else 'violated', '%s version sampled by %s order=%s' % (short(fn['name']), prod['op'], o), loc_of(prod),
+                       'acquire: what the holder of this version reads next is ordered after the exclusive section that published it' if good else
+                       'the version a guard carries is sampled with a %s read and no acquire fence follows: reads validated against it are not ordered after the '
+                       'exclusive section that published it (an inconsistent snapshot can be validated)' % o)
         return not bad
 
     def verify_check(self, fn, paths):
